@@ -110,3 +110,16 @@ Definition eval_opaque (lie : bool) (w : wexp) (evs : list (event N meta)) :=
 Definition eval_direct (w : wexp) (text : bytes) := map enc_call (dist_direct w text).
 
 Definition eval_route (w : wexp) (ms : list meta) := map (fun m => (route w m, denote w m, asked w m)) ms.
+
+(** ---- histories with run-time reconfiguration of the span events (a fmt layer behind reload::Subscriber): the branch
+    structure of on_close is read from the source on every run ([close_timing_gated]); the model FOLLOWS it. *)
+Definition current_close_gated : bool := Gen_fmtbuf.close_timing_gated.
+
+Definition eval_thread_r (lie : bool) (f : fmt) (o : opts) (sc0 : spancfg) (w : wexp) (th : thr) (ops : list rop) :=
+  map enc_fentry (sink_log_f current_tee_both (Cfg current_policy lie) meta_of w (plans_of [])
+                    (thread_events_r (time_guard current_timer_fallback (o_timer o) (guarded (poisons false) (format_event f o th)))
+                                     current_close_gated sc0 (o_timer o) ops)).
+Definition eval_pretty_r (lie : bool) (o : opts) (sc0 : spancfg) (w : wexp) (th : thr) (ops : list rop) :=
+  map enc_fentry (sink_log_f current_tee_both (Cfg current_policy lie) meta_of w (plans_of [])
+                    (thread_events_r (time_guard current_timer_fallback (o_timer o) (guarded (poisons false) (format_event_pretty o th)))
+                                     current_close_gated sc0 (o_timer o) ops)).
